@@ -18,26 +18,6 @@ theorem crc64_single_byte (a : Bytes) (i : Nat) (hi : i < a.length) (x : UInt8) 
     crc64iso (a.set i x) ≠ crc64iso a :=
   crc64_single_byte' a i hi x hx
 
-theorem truncate_prefix (c : Compression) (ct : Nat) (rs : List GoBytes)
-    (hl : LawfulC c) (hf : ∀ r ∈ rs, FitsRec c r) (hct : ct ≤ maxCompression) (n : Nat) :
-    ∃ e, openReadAll c ((fileHeader currentVersion ct ++ encAll c rs).take n)
-      = (rs.take (wholeIn c rs n), e) := by
-  sorry
-
-theorem truncate_readAt (c : Compression) (ct : Nat) (rs : List GoBytes) (k : Nat) (hk : k < rs.length)
-    (hl : LawfulC c) (hf : ∀ r ∈ rs, FitsRec c r) (n : Nat) :
-    (offsetOf c rs (k + 1) ≤ n →
-      readAt c ((fileHeader currentVersion ct ++ encAll c rs).take n) (offsetOf c rs k) = .ok rs[k]) ∧
-    (n < offsetOf c rs (k + 1) →
-      ∃ e, readAt c ((fileHeader currentVersion ct ++ encAll c rs).take n) (offsetOf c rs k) = .error e) := by
-  sorry
-
-theorem header_alter_detected_partial (c : Compression) (r : GoBytes) (pre rest : Bytes)
-    (hf : FitsRec c r) (i : Nat) (x : UInt8) (hfp : FramePreserving (headerOf c r) i x) :
-    (∃ e, readNextS c ((encRecord c r).set i x ++ rest) = .error e) ∧
-    (∃ e, readAt c (pre ++ (encRecord c r).set i x ++ rest) pre.length = .error e) := by
-  sorry
-
 theorem le32_length (n : Nat) : (le32 n).length = 4 := rfl
 
 theorem le32Dec_le32 (n : Nat) (h : n < 2 ^ 32) : le32Dec (le32 n) = some n := by
@@ -75,5 +55,649 @@ theorem file_header_accepted (v ct : Nat) (rest : Bytes)
   have h2 : maxCompression = 3 := rfl
   rw [parseFileHeader_le32 v ct rest (by omega) (by omega)]
   rw [if_neg (by omega), if_neg (by omega)]
+
+
+/-! ## successful parses only look at the bytes they consume -/
+
+theorem uvarintDecAux_ok_ext : ∀ (bs : Bytes) (i x s v n : Nat), uvarintDecAux bs i x s = .ok (v, n) →
+    i + 1 ≤ n ∧ n ≤ i + bs.length ∧ ∀ t, uvarintDecAux (bs ++ t) i x s = .ok (v, n) := by
+  intro bs
+  induction bs with
+  | nil => intro i x s v n h; simp only [uvarintDecAux] at h; split at h <;> cases h
+  | cons b bs ih =>
+    intro i x s v n h
+    simp only [uvarintDecAux, List.cons_append] at h ⊢
+    by_cases h10 : i ≥ 10
+    · rw [if_pos h10] at h; cases h
+    · simp only [if_neg h10] at h ⊢
+      by_cases hb : b.toNat < 128
+      · simp only [if_pos hb] at h ⊢
+        by_cases h9 : i = 9 ∧ b.toNat > 1
+        · rw [if_pos h9] at h; cases h
+        · simp only [if_neg h9] at h ⊢
+          cases h
+          refine ⟨Nat.le_refl _, by simp, fun t => rfl⟩
+      · simp only [if_neg hb] at h ⊢
+        obtain ⟨a1, a2, a3⟩ := ih _ _ _ _ _ h
+        refine ⟨by omega, by simp only [List.length_cons]; omega, a3⟩
+
+theorem Win.map_ok {α : Type} (w : Win) (r : Except Err α) (p : α) (h : w.map r = .ok p) : r = .ok p := by
+  unfold Win.map at h
+  split at h <;> first | exact h | cases h
+
+theorem Win.map_ok' {α : Type} (w : Win) (p : α) : w.map (.ok p : Except Err α) = .ok p := rfl
+
+theorem canonDec_ok_ext (w : Win) (bs : Bytes) (v n : Nat) (h : canonDec w bs = .ok (v, n)) :
+    1 ≤ n ∧ n ≤ bs.length ∧ ∀ (w' : Win) (t : Bytes), canonDec w' (bs ++ t) = .ok (v, n) := by
+  rw [canonDec_eq] at h
+  cases hm : w.map (uvarintDec bs) with
+  | error e => rw [hm] at h; cases h
+  | ok p =>
+    obtain ⟨v', n'⟩ := p
+    rw [hm] at h
+    simp only [] at h
+    by_cases hc : n' > 1 ∧ bs.getD (n' - 1) 0 = 0
+    · rw [if_pos hc] at h; cases h
+    · rw [if_neg hc] at h
+      cases h
+      have hd := Win.map_ok w _ _ hm
+      obtain ⟨a1, a2, a3⟩ := uvarintDecAux_ok_ext bs 0 0 0 v n hd
+      refine ⟨by omega, by omega, ?_⟩
+      intro w' t
+      have hd' : uvarintDec (bs ++ t) = .ok (v, n) := a3 t
+      rw [canonDec_eq, hd', Win.map_ok']
+      simp only []
+      rw [if_neg]
+      rw [List.getD_eq_getElem?_getD, List.getElem?_append_left (by omega),
+        ← List.getD_eq_getElem?_getD]
+      exact hc
+
+theorem readHeader_ok_ext (w : Win) (h : RecHeader) (hok : readHeader w = .ok h) :
+    h.hlen ≤ w.bytes.length ∧
+      ∀ (w' : Win) (t : Bytes), w'.bytes = w.bytes ++ t → readHeader w' = .ok h := by
+  rw [readHeader_eq] at hok
+  cases h1 : canonDec w w.bytes with
+  | error e => rw [h1] at hok; cases hok
+  | ok p1 =>
+    obtain ⟨m, c1⟩ := p1
+    rw [h1] at hok
+    simp only [] at hok
+    by_cases hm : m ≠ magicNumber
+    · rw [if_pos hm] at hok; cases hok
+    · rw [if_neg hm] at hok
+      cases h2 : w.bytes.drop c1 with
+      | nil => rw [h2] at hok; cases hok
+      | cons nb rest =>
+        rw [h2] at hok
+        simp only [] at hok
+        cases h3 : canonDec w rest with
+        | error e => rw [h3] at hok; cases hok
+        | ok p2 =>
+          obtain ⟨u, c2⟩ := p2
+          rw [h3] at hok
+          simp only [] at hok
+          cases h4 : canonDec w (rest.drop c2) with
+          | error e => rw [h4] at hok; cases hok
+          | ok p3 =>
+            obtain ⟨cl, c3⟩ := p3
+            rw [h4] at hok
+            simp only [] at hok
+            cases h5 : canonDec w ((rest.drop c2).drop c3) with
+            | error e => rw [h5] at hok; cases hok
+            | ok p4 =>
+              obtain ⟨ex, c4⟩ := p4
+              rw [h5] at hok
+              simp only [] at hok
+              by_cases hcrc : (crc32c (w.bytes.take (c1 + 1 + c2 + c3))).toNat ≠ ex
+              · rw [if_pos hcrc] at hok; cases hok
+              · rw [if_neg hcrc] at hok
+                cases hok
+                obtain ⟨_, l1, e1⟩ := canonDec_ok_ext _ _ _ _ h1
+                obtain ⟨_, l2, e2⟩ := canonDec_ok_ext _ _ _ _ h3
+                obtain ⟨_, l3, e3⟩ := canonDec_ok_ext _ _ _ _ h4
+                obtain ⟨_, l4, e4⟩ := canonDec_ok_ext _ _ _ _ h5
+                have hlen := congrArg List.length h2
+                simp only [List.length_drop, List.length_cons] at hlen l3 l4
+                refine ⟨by simp only []; omega, ?_⟩
+                intro w' t hw'
+                have d1 : (w.bytes ++ t).drop c1 = nb :: (rest ++ t) := by
+                  rw [List.drop_append_of_le_length l1, h2]; rfl
+                have d2 : (rest ++ t).drop c2 = rest.drop c2 ++ t := List.drop_append_of_le_length l2
+                have d3 : (rest.drop c2 ++ t).drop c3 = (rest.drop c2).drop c3 ++ t :=
+                  List.drop_append_of_le_length (by simp only [List.length_drop]; omega)
+                have d4 : (w.bytes ++ t).take (c1 + 1 + c2 + c3) = w.bytes.take (c1 + 1 + c2 + c3) :=
+                  List.take_append_of_le_length (by omega)
+                rw [readHeader_eq, hw', e1 w' t]
+                simp only []
+                rw [if_neg hm, d1]
+                simp only []
+                rw [e2 w' t]
+                simp only []
+                rw [d2, e3 w' t]
+                simp only []
+                rw [d3, e4 w' t]
+                simp only []
+                rw [d4, if_neg hcrc]
+
+
+/-! ## cut records -/
+
+/-- the header parse over a window holding a prefix of an encoded record either fails or has seen the
+whole header -/
+theorem readHeader_trunc (w : Win) (nf : Bool) (u cl : Nat) (S : Bytes) (j : Nat)
+    (hu : u < 2 ^ 64) (hcl : cl < 2 ^ 64) (hw : w.bytes = (encHeader nf u cl ++ S).take j) :
+    (∃ e, readHeader w = .error e) ∨
+    (readHeader w = .ok { ulen := u, clen := cl, isNil := nf, hlen := (encHeader nf u cl).length } ∧
+      (encHeader nf u cl).length ≤ j) := by
+  cases hr : readHeader w with
+  | error e => exact Or.inl ⟨e, rfl⟩
+  | ok h =>
+    right
+    obtain ⟨hl, hext⟩ := readHeader_ok_ext w h hr
+    have h1 := hext ⟨encHeader nf u cl ++ S, .eof, .eof⟩ ((encHeader nf u cl ++ S).drop j)
+      (by rw [hw, List.take_append_drop])
+    rw [readHeader_enc _ nf u cl S hu hcl rfl] at h1
+    cases h1
+    refine ⟨rfl, ?_⟩
+    rw [hw, List.length_take] at hl
+    simp only [] at hl
+    omega
+
+theorem fileWin_take (R : Bytes) (m : Nat) :
+    ∃ j, j ≤ m ∧ (fileWin (R.take m)).bytes = R.take j := by
+  unfold fileWin
+  split
+  · exact ⟨min recordHeaderMax m, Nat.min_le_right _ _, by simp [List.take_take]⟩
+  · exact ⟨m, Nat.le_refl _, rfl⟩
+
+theorem mmapWin_take (R : Bytes) (m : Nat) :
+    ∃ j, j ≤ m ∧ (mmapWin (R.take m)).bytes = R.take j :=
+  ⟨min recordHeaderMax m, Nat.min_le_right _ _, by simp [mmapWin, List.take_take]⟩
+
+theorem readNextS_of_header_error (c : Compression) (s : Bytes)
+    (h : ∃ e, readHeader (fileWin s) = .error e) : ∃ e, readNextS c s = .error e := by
+  obtain ⟨e, he⟩ := h
+  unfold readNextS
+  rw [he]
+  split
+  · split
+    · split <;> exact ⟨_, rfl⟩
+    · exact ⟨_, rfl⟩
+  · exact ⟨_, rfl⟩
+  · rename_i h; cases h
+
+/-- reading a record that was cut anywhere before its end fails -/
+theorem readNextS_trunc (c : Compression) (r : GoBytes) (hf : FitsRec c r) (m : Nat)
+    (hm : m < (encRecord c r).length) : ∃ e, readNextS c ((encRecord c r).take m) = .error e := by
+  obtain ⟨j, hj, hw⟩ := fileWin_take (encRecord c r) m
+  cases r with
+  | none =>
+    simp only [encRecord] at hw hm ⊢
+    rcases readHeader_trunc _ true 0 _ [] j (by decide) hf (by rw [List.append_nil]; exact hw) with h | ⟨_, h⟩
+    · exact readNextS_of_header_error c _ h
+    · omega
+  | some r =>
+    obtain ⟨hf1, hf2⟩ := hf
+    simp only [encRecord] at hw hm ⊢
+    rcases readHeader_trunc _ false r.length _ (stored c r) j hf1 hf2 hw with h | ⟨hok, h⟩
+    · exact readNextS_of_header_error c _ h
+    · simp only [List.length_append] at hm
+      unfold readNextS
+      rw [hok]
+      simp only [expectedLen_enc, Bool.false_eq_true, if_false, List.length_drop, List.length_take,
+        List.length_append]
+      rw [if_neg (by omega)]
+      split
+      · exact ⟨_, rfl⟩
+      · rw [if_pos (by omega)]; exact ⟨_, rfl⟩
+
+theorem readAt_trunc (c : Compression) (pre : Bytes) (r : GoBytes) (hf : FitsRec c r) (m : Nat)
+    (hm : m < (encRecord c r).length) :
+    ∃ e, readAt c (pre ++ (encRecord c r).take m) pre.length = .error e := by
+  have hlen : (pre ++ (encRecord c r).take m).length = pre.length + m := by
+    rw [List.length_append, List.length_take]; omega
+  unfold readAt
+  rw [if_neg (by omega)]
+  by_cases hm0 : m = 0
+  · rw [if_pos (by omega)]; exact ⟨_, rfl⟩
+  rw [if_neg (by omega)]
+  simp only [List.drop_left]
+  obtain ⟨j, hj, hw⟩ := mmapWin_take (encRecord c r) m
+  cases r with
+  | none =>
+    simp only [encRecord] at hw hm ⊢
+    rcases readHeader_trunc _ true 0 _ [] j (by decide) hf (by rw [List.append_nil]; exact hw) with ⟨e, h⟩ | ⟨_, h⟩
+    · rw [h]; exact ⟨_, rfl⟩
+    · omega
+  | some r =>
+    obtain ⟨hf1, hf2⟩ := hf
+    simp only [encRecord] at hw hm hlen ⊢
+    rcases readHeader_trunc _ false r.length _ (stored c r) j hf1 hf2 hw with ⟨e, h⟩ | ⟨hok, h⟩
+    · rw [h]; exact ⟨_, rfl⟩
+    · simp only [List.length_append] at hm
+      rw [hok]
+      simp only [expectedLen_enc, Bool.false_eq_true, if_false, List.length_drop, List.length_take,
+        List.length_append]
+      split
+      · exact ⟨_, rfl⟩
+      · rw [if_pos (by omega)]; exact ⟨_, rfl⟩
+
+
+theorem wholeInAux_le_budget (c : Compression) (rs : List GoBytes) : ∀ b, wholeInAux c rs b ≤ b := by
+  induction rs with
+  | nil => intro b; simp [wholeInAux]
+  | cons r rs ih =>
+    intro b
+    have := encRecord_pos c r
+    simp only [wholeInAux]
+    split
+    · have := ih (b - (encRecord c r).length); omega
+    · omega
+
+theorem wholeInAux_le_length (c : Compression) (rs : List GoBytes) : ∀ b, wholeInAux c rs b ≤ rs.length := by
+  induction rs with
+  | nil => intro b; simp [wholeInAux]
+  | cons r rs ih =>
+    intro b
+    simp only [wholeInAux, List.length_cons]
+    split
+    · have := ih (b - (encRecord c r).length); omega
+    · omega
+
+theorem readNextS_nil (c : Compression) : readNextS c [] = .error .eof := by
+  have := zero_tail_is_eof c 0
+  simpa using this
+
+theorem readAllS_trunc (c : Compression) (hl : LawfulC c) (rs : List GoBytes) :
+    ∀ (b fuel : Nat), (∀ r ∈ rs, FitsRec c r) → wholeInAux c rs b < fuel →
+      ∃ e, readAllS c fuel ((encAll c rs).take b) = (rs.take (wholeInAux c rs b), e) := by
+  induction rs with
+  | nil =>
+    intro b fuel _ hfu
+    cases fuel with
+    | zero => omega
+    | succ f => exact ⟨.eof, by simp [readAllS, readNextS_nil, wholeInAux]⟩
+  | cons r rs ih =>
+    intro b fuel hf hfu
+    cases fuel with
+    | zero => omega
+    | succ f =>
+      simp only [wholeInAux] at hfu ⊢
+      by_cases hb : (encRecord c r).length ≤ b
+      · rw [if_pos hb] at hfu ⊢
+        obtain ⟨e, he⟩ := ih (b - (encRecord c r).length) f (fun x hx => hf x (by simp [hx])) (by omega)
+        refine ⟨e, ?_⟩
+        have h1 := readNextS_enc c r ((encAll c rs).take (b - (encRecord c r).length)) hl (hf r (by simp))
+        rw [encAll_cons, List.take_append, List.take_of_length_le hb]
+        simp only [readAllS, h1, List.drop_left, he]
+        rw [Nat.add_comm 1, List.take_succ_cons]
+      · rw [if_neg hb]
+        obtain ⟨e, he⟩ := readNextS_trunc c r (hf r (by simp)) b (by omega)
+        refine ⟨e, ?_⟩
+        rw [encAll_cons, List.take_append_of_le_length (by omega)]
+        simp [readAllS, he]
+
+theorem openReadAll_of_ok (c : Compression) (f : Bytes) (p : Nat × Nat) (h : parseFileHeader f = .ok p) :
+    openReadAll c f = readAll c f := by
+  unfold openReadAll; rw [h]
+
+theorem openReadAll_of_error (c : Compression) (f : Bytes) (e : Err) (h : parseFileHeader f = .error e) :
+    openReadAll c f = ([], e) := by
+  unfold openReadAll; rw [h]
+
+theorem truncate_prefix (c : Compression) (ct : Nat) (rs : List GoBytes)
+    (hl : LawfulC c) (hf : ∀ r ∈ rs, FitsRec c r) (hct : ct ≤ maxCompression) (n : Nat) :
+    ∃ e, openReadAll c ((fileHeader currentVersion ct ++ encAll c rs).take n)
+      = (rs.take (wholeIn c rs n), e) := by
+  by_cases hn : n < fileHeaderSize
+  · have h0 : wholeIn c rs n = 0 := by
+      have := wholeInAux_le_budget c rs (n - fileHeaderSize)
+      unfold wholeIn; omega
+    have hlen : ((fileHeader currentVersion ct ++ encAll c rs).take n).length < fileHeaderSize := by
+      rw [List.length_take]; omega
+    have hp : ∃ e, parseFileHeader ((fileHeader currentVersion ct ++ encAll c rs).take n) = .error e := by
+      unfold parseFileHeader
+      rw [if_pos hlen]
+      split <;> exact ⟨_, rfl⟩
+    obtain ⟨e, he⟩ := hp
+    rw [openReadAll_of_error c _ e he, h0]
+    exact ⟨e, rfl⟩
+  · have h8 : fileHeaderSize = 8 := rfl
+    have htake : (fileHeader currentVersion ct ++ encAll c rs).take n =
+        fileHeader currentVersion ct ++ (encAll c rs).take (n - fileHeaderSize) := by
+      rw [List.take_append, List.take_of_length_le (by rw [fileHeader_length]; omega), fileHeader_length, h8]
+    have hparse : parseFileHeader (fileHeader currentVersion ct ++ (encAll c rs).take (n - fileHeaderSize))
+        = .ok (currentVersion, ct) := by
+      have := file_header_accepted currentVersion ct ((encAll c rs).take (n - fileHeaderSize))
+        ⟨by decide, Nat.le_refl _⟩ hct
+      exact this
+    have hd : (fileHeader currentVersion ct ++ (encAll c rs).take (n - fileHeaderSize)).drop fileHeaderSize
+        = (encAll c rs).take (n - fileHeaderSize) := List.drop_left' (fileHeader_length _ _)
+    rw [htake, openReadAll_of_ok c _ _ hparse]
+    unfold readAll wholeIn
+    rw [hd]
+    apply readAllS_trunc c hl rs _ _ hf
+    have h1 := wholeInAux_le_budget c rs (n - fileHeaderSize)
+    have h2 := wholeInAux_le_length c rs (n - fileHeaderSize)
+    have h3 := length_le_encAll c rs
+    simp only [List.length_append, fileHeader_length, List.length_take]
+    omega
+
+theorem truncate_readAt (c : Compression) (ct : Nat) (rs : List GoBytes) (k : Nat) (hk : k < rs.length)
+    (hl : LawfulC c) (hf : ∀ r ∈ rs, FitsRec c r) (n : Nat) :
+    (offsetOf c rs (k + 1) ≤ n →
+      readAt c ((fileHeader currentVersion ct ++ encAll c rs).take n) (offsetOf c rs k) = .ok rs[k]) ∧
+    (n < offsetOf c rs (k + 1) →
+      ∃ e, readAt c ((fileHeader currentVersion ct ++ encAll c rs).take n) (offsetOf c rs k) = .error e) := by
+  have hsplit : rs = rs.take k ++ rs[k] :: rs.drop (k + 1) := by simp
+  have hfile : fileHeader currentVersion ct ++ encAll c rs =
+      (fileHeader currentVersion ct ++ encAll c (rs.take k)) ++
+        (encRecord c rs[k] ++ encAll c (rs.drop (k + 1))) := by
+    have := congrArg (encAll c) hsplit
+    rw [encAll_append, encAll_cons] at this
+    rw [this, List.append_assoc]
+  have hoff : offsetOf c rs k = (fileHeader currentVersion ct ++ encAll c (rs.take k)).length := by
+    simp [offsetOf, fileHeader_length, fileHeaderSize]
+  have hoff1 : offsetOf c rs (k + 1) = offsetOf c rs k + (encRecord c rs[k]).length := by
+    have h1 : rs.take (k + 1) = rs.take k ++ [rs[k]] := by simp
+    simp only [offsetOf, h1, encAll_append, List.length_append, encAll_cons, encAll_nil]
+    simp; omega
+  have hfit : FitsRec c rs[k] := hf _ (by simp)
+  generalize fileHeader currentVersion ct ++ encAll c (rs.take k) = pre at hfile hoff
+  generalize encAll c (rs.drop (k + 1)) = tail at hfile
+  rw [hfile, hoff1, hoff]
+  constructor
+  · intro hn
+    have : (pre ++ (encRecord c rs[k] ++ tail)).take n =
+        pre ++ (encRecord c rs[k] ++ tail.take (n - pre.length - (encRecord c rs[k]).length)) := by
+      rw [List.take_append, List.take_of_length_le (by omega), List.take_append,
+        List.take_of_length_le (by omega)]
+    rw [this]
+    exact readAt_enc c _ _ _ hl hfit
+  · intro hn
+    by_cases hp : n < pre.length
+    · refine ⟨.other, ?_⟩
+      unfold readAt
+      rw [if_pos (by rw [List.length_take]; omega)]
+    · have : (pre ++ (encRecord c rs[k] ++ tail)).take n =
+          pre ++ (encRecord c rs[k]).take (n - pre.length) := by
+        rw [List.take_append, List.take_of_length_le (by omega),
+          List.take_append_of_le_length (by omega)]
+      rw [this]
+      exact readAt_trunc c pre _ hfit _ (by omega)
+
+
+/-! ## varints as byte lists: shape and value -/
+
+/-- value of a varint's bytes (7 low bits each, little endian) -/
+def vval : Bytes → Nat
+  | [] => 0
+  | b :: bs => b.toNat % 128 + 128 * vval bs
+
+/-- continuation bit set on every byte but the last -/
+def IsVar : Bytes → Prop
+  | [] => False
+  | b :: bs => (bs = [] ∧ b.toNat < 128) ∨ (b.toNat ≥ 128 ∧ IsVar bs)
+
+theorem uvarintDecAux_isVar (E : Bytes) : IsVar E → ∀ (rest : Bytes) (i x s : Nat),
+    (∃ e, uvarintDecAux (E ++ rest) i x s = .error e) ∨
+      uvarintDecAux (E ++ rest) i x s = .ok (x + vval E * 2 ^ s, i + E.length) := by
+  induction E with
+  | nil => intro h; cases h
+  | cons b bs ih =>
+    intro h rest i x s
+    have hb256 := UInt8.toNat_lt b
+    simp only [List.cons_append, uvarintDecAux]
+    by_cases h10 : i ≥ 10
+    · rw [if_pos h10]; exact Or.inl ⟨_, rfl⟩
+    · rw [if_neg h10]
+      rcases h with ⟨hnil, hb⟩ | ⟨hb, hbs⟩
+      · subst hnil
+        rw [if_pos hb]
+        by_cases h9 : i = 9 ∧ b.toNat > 1
+        · rw [if_pos h9]; exact Or.inl ⟨_, rfl⟩
+        · rw [if_neg h9]; right
+          simp only [vval, List.length_singleton, Nat.mul_zero, Nat.add_zero, Nat.mod_eq_of_lt hb]
+      · rw [if_neg (by omega)]
+        rcases ih hbs rest (i + 1) (x + (b.toNat - 128) * 2 ^ s) (s + 7) with h | h
+        · exact Or.inl h
+        · right
+          rw [h]
+          have e1 : b.toNat % 128 = b.toNat - 128 := by omega
+          have e2 : x + (b.toNat - 128) * 2 ^ s + vval bs * 2 ^ (s + 7) =
+              x + (b.toNat % 128 + 128 * vval bs) * 2 ^ s := by
+            rw [e1, Nat.pow_add]
+            generalize 2 ^ s = p
+            generalize vval bs = q
+            generalize b.toNat - 128 = r
+            grind
+          simp only [vval, List.length_cons, e2]
+          congr 2; omega
+
+theorem Win.map_error {α : Type} (w : Win) (e : Err) : ∃ e', w.map (.error e : Except Err α) = .error e' := by
+  unfold Win.map
+  split <;> first | exact ⟨_, rfl⟩ | (rename_i h; exact ⟨e, h⟩) 
+
+theorem canonDec_isVar (w : Win) (E rest : Bytes) (hE : IsVar E) :
+    (∃ e, canonDec w (E ++ rest) = .error e) ∨ canonDec w (E ++ rest) = .ok (vval E, E.length) := by
+  rw [canonDec_eq]
+  rcases uvarintDecAux_isVar E hE rest 0 0 0 with ⟨e, h⟩ | h
+  · left
+    have h' : uvarintDec (E ++ rest) = .error e := h
+    obtain ⟨e', he'⟩ := Win.map_error (α := Nat × Nat) w e
+    rw [h', he']; exact ⟨_, rfl⟩
+  · have h' : uvarintDec (E ++ rest) = .ok (vval E, E.length) := by simpa [uvarintDec] using h
+    rw [h', Win.map_ok']
+    simp only []
+    split
+    · exact Or.inl ⟨_, rfl⟩
+    · exact Or.inr rfl
+
+theorem isVar_enc (n : Nat) : IsVar (uvarintEnc n) ∧ vval (uvarintEnc n) = n := by
+  induction n using Nat.strongRecOn with
+  | _ n ih =>
+    by_cases h : n < 128
+    · rw [uvarintEnc_lt n h]
+      have hb := toNat_ofNat_lt n (by omega)
+      exact ⟨Or.inl ⟨rfl, by omega⟩, by simp only [vval, hb]; omega⟩
+    · rw [uvarintEnc_ge n h]
+      have hb := toNat_ofNat_lt (n % 128 + 128) (by omega)
+      obtain ⟨i1, i2⟩ := ih (n / 128) (Nat.div_lt_self (by omega) (by omega))
+      exact ⟨Or.inr ⟨by omega, i1⟩, by simp only [vval, hb, i2]; omega⟩
+
+theorem varint_alter (E : Bytes) : IsVar E → ∀ (j : Nat) (e x : UInt8), E[j]? = some e → x ≠ e →
+    (x.toNat ≥ 128 ↔ e.toNat ≥ 128) → IsVar (E.set j x) ∧ vval (E.set j x) ≠ vval E := by
+  induction E with
+  | nil => intro h; cases h
+  | cons b bs ih =>
+    intro h j e x he hx hc
+    have hx256 := UInt8.toNat_lt x
+    have he256 := UInt8.toNat_lt e
+    have hne : x.toNat ≠ e.toNat := fun h' => hx (UInt8.toNat_inj.mp h')
+    cases j with
+    | zero =>
+      simp only [List.getElem?_cons_zero, Option.some.injEq] at he
+      subst he
+      simp only [List.set_cons_zero, vval]
+      refine ⟨?_, by omega⟩
+      rcases h with ⟨h1, h2⟩ | ⟨h1, h2⟩
+      · exact Or.inl ⟨h1, by omega⟩
+      · exact Or.inr ⟨by omega, h2⟩
+    | succ j =>
+      simp only [List.getElem?_cons_succ] at he
+      simp only [List.set_cons_succ, vval]
+      rcases h with ⟨h1, _⟩ | ⟨h1, h2⟩
+      · subst h1; simp at he
+      · obtain ⟨a1, a2⟩ := ih h2 j e x he hx hc
+        exact ⟨Or.inr ⟨h1, a1⟩, by omega⟩
+
+
+/-! ## a header whose four varint fields keep their shape parses at the same places -/
+
+theorem readHeader_fields (w : Win) (M U C K t : Bytes) (f : UInt8) (h : RecHeader)
+    (hM : IsVar M) (hU : IsVar U) (hC : IsVar C) (hK : IsVar K)
+    (hw : w.bytes = (M ++ ([f] ++ (U ++ C))) ++ (K ++ t)) (hok : readHeader w = .ok h) :
+    vval M = magicNumber ∧ (crc32c (M ++ ([f] ++ (U ++ C)))).toNat = vval K := by
+  have hw' : w.bytes = M ++ (f :: (U ++ (C ++ (K ++ t)))) := by rw [hw]; simp
+  have htake : (M ++ (f :: (U ++ (C ++ (K ++ t))))).take (M.length + 1 + U.length + C.length) =
+      M ++ ([f] ++ (U ++ C)) := by
+    rw [← hw', hw]
+    exact List.take_left' (by simp; omega)
+  rw [readHeader_eq, hw'] at hok
+  rcases canonDec_isVar w M (f :: (U ++ (C ++ (K ++ t)))) hM with ⟨e, h1⟩ | h1
+  · rw [h1] at hok; cases hok
+  rw [h1] at hok
+  simp only [] at hok
+  by_cases hm : vval M ≠ magicNumber
+  · rw [if_pos hm] at hok; cases hok
+  rw [if_neg hm, List.drop_left] at hok
+  simp only [] at hok
+  rcases canonDec_isVar w U (C ++ (K ++ t)) hU with ⟨e, h2⟩ | h2
+  · rw [h2] at hok; cases hok
+  rw [h2] at hok
+  simp only [List.drop_left] at hok
+  rcases canonDec_isVar w C (K ++ t) hC with ⟨e, h3⟩ | h3
+  · rw [h3] at hok; cases hok
+  rw [h3] at hok
+  simp only [List.drop_left] at hok
+  rcases canonDec_isVar w K t hK with ⟨e, h4⟩ | h4
+  · rw [h4] at hok; cases hok
+  rw [h4] at hok
+  simp only [htake] at hok
+  by_cases hcrc : (crc32c (M ++ ([f] ++ (U ++ C)))).toNat ≠ vval K
+  · rw [if_pos hcrc] at hok; cases hok
+  · exact ⟨Decidable.not_not.mp hm, Decidable.not_not.mp hcrc⟩
+
+theorem split_alter (A B : Bytes) (i : Nat) (e x : UInt8) (he : (A ++ B)[i]? = some e) :
+    (i < A.length ∧ A[i]? = some e ∧ (A ++ B).set i x = A.set i x ++ B) ∨
+    (A.length ≤ i ∧ B[i - A.length]? = some e ∧ (A ++ B).set i x = A ++ B.set (i - A.length) x) := by
+  by_cases h : i < A.length
+  · left
+    rw [List.getElem?_append_left h] at he
+    exact ⟨h, he, List.set_append_left _ _ h⟩
+  · right
+    have h' : A.length ≤ i := by omega
+    rw [List.getElem?_append_right h'] at he
+    exact ⟨h', he, List.set_append_right _ _ h'⟩
+
+theorem crc_set_ne (a : Bytes) (i : Nat) (e x : UInt8) (he : a[i]? = some e) (hx : x ≠ e) :
+    crc32c (a.set i x) ≠ crc32c a := by
+  obtain ⟨hi, hget⟩ := List.getElem?_eq_some_iff.mp he
+  exact crc32c_single_byte' a i hi x (by rw [hget]; exact hx)
+
+theorem encHeader_split (nf : Bool) (u cl : Nat) :
+    encHeader nf u cl = (uvarintEnc magicNumber ++ ([if nf then 1 else 0] ++ (uvarintEnc u ++ uvarintEnc cl))) ++
+      uvarintEnc (crc32c (headerBody nf u cl)).toNat ∧
+    headerBody nf u cl = uvarintEnc magicNumber ++ ([if nf then 1 else 0] ++ (uvarintEnc u ++ uvarintEnc cl)) := by
+  have hb : headerBody nf u cl =
+      uvarintEnc magicNumber ++ ([if nf then 1 else 0] ++ (uvarintEnc u ++ uvarintEnc cl)) := by
+    rw [headerBody, uvarintEnc_magic]; simp
+  exact ⟨by rw [encHeader, hb], hb⟩
+
+/-- every frame-preserving alteration of a header byte makes the header parse fail -/
+theorem readHeader_altered (w : Win) (nf : Bool) (u cl : Nat) (t : Bytes) (i : Nat) (x : UInt8)
+    (hfp : FramePreserving (encHeader nf u cl) i x)
+    (hw : w.bytes = (encHeader nf u cl).set i x ++ t) : ∃ e, readHeader w = .error e := by
+  cases hr : readHeader w with
+  | error e => exact ⟨e, rfl⟩
+  | ok h =>
+    exfalso
+    obtain ⟨hi, hx, hc⟩ := hfp
+    obtain ⟨hH, hB⟩ := encHeader_split nf u cl
+    have he : (encHeader nf u cl)[i]? = some (encHeader nf u cl)[i] := List.getElem?_eq_getElem hi
+    generalize (encHeader nf u cl)[i] = e at he hx hc
+    have hmlen : (uvarintEnc magicNumber).length = 3 := by rw [uvarintEnc_magic]; rfl
+    have hm3 : magicBytes.length = 3 := rfl
+    obtain ⟨vM, eM⟩ := isVar_enc magicNumber
+    obtain ⟨vU, eU⟩ := isVar_enc u
+    obtain ⟨vC, eC⟩ := isVar_enc cl
+    obtain ⟨vK, eK⟩ := isVar_enc (crc32c (headerBody nf u cl)).toNat
+    rw [hB] at eK vK hH
+    generalize hMd : uvarintEnc magicNumber = M at *
+    generalize hUd : uvarintEnc u = U at *
+    generalize hCd : uvarintEnc cl = C at *
+    generalize hfd : (if nf then (1 : UInt8) else 0) = f at *
+    generalize hKd : uvarintEnc (crc32c (M ++ ([f] ++ (U ++ C)))).toNat = K at *
+    rw [hH] at hw he
+    rcases split_alter _ K i e x he with ⟨l1, g1, s1⟩ | ⟨l1, g1, s1⟩
+    · -- inside the body
+      rw [s1] at hw
+      rcases split_alter M _ i e x g1 with ⟨l2, g2, s2⟩ | ⟨l2, g2, s2⟩
+      · -- marker
+        have hc' := hc.resolve_left (by omega)
+        obtain ⟨a1, a2⟩ := varint_alter M vM i e x g2 hx hc'
+        rw [s2] at hw
+        have := (readHeader_fields w _ U C K t f h a1 vU vC vK (by rw [hw]; simp) hr).1
+        omega
+      · have hne := crc_set_ne _ i e x g1 hx
+        rw [s2] at hw hne
+        rcases split_alter [f] _ (i - M.length) e x g2 with ⟨l3, g3, s3⟩ | ⟨l3, g3, s3⟩
+        · -- nil flag
+          have h0 : i - M.length = 0 := by simpa using l3
+          rw [s3, h0, List.set_cons_zero] at hw hne
+          have := (readHeader_fields w M U C K t x h vM vU vC vK (by rw [hw]; simp) hr).2
+          rw [eK] at this
+          exact hne (UInt32.toNat_inj.mp this)
+        · have hc' := hc.resolve_left (by simp at l3; omega)
+          rw [s3] at hw hne
+          rcases split_alter U C _ e x g3 with ⟨l4, g4, s4⟩ | ⟨l4, g4, s4⟩
+          · -- ulen
+            obtain ⟨a1, _⟩ := varint_alter U vU _ e x g4 hx hc'
+            rw [s4] at hw hne
+            have := (readHeader_fields w M _ C K t f h vM a1 vC vK (by rw [hw]; simp) hr).2
+            rw [eK] at this
+            exact hne (UInt32.toNat_inj.mp this)
+          · -- clen
+            obtain ⟨a1, _⟩ := varint_alter C vC _ e x g4 hx hc'
+            rw [s4] at hw hne
+            have := (readHeader_fields w M U _ K t f h vM vU a1 vK (by rw [hw]; simp) hr).2
+            rw [eK] at this
+            exact hne (UInt32.toNat_inj.mp this)
+    · -- checksum varint
+      have hc' := hc.resolve_left (by simp at l1; omega)
+      obtain ⟨a1, a2⟩ := varint_alter K vK _ e x g1 hx hc'
+      rw [s1] at hw
+      have := (readHeader_fields w M U C _ t f h vM vU vC a1 (by rw [hw]; simp) hr).2
+      omega
+
+
+theorem encRecord_header (c : Compression) (r : GoBytes) (hf : FitsRec c r) :
+    ∃ (nf : Bool) (u cl : Nat) (S : Bytes), u < 2 ^ 64 ∧ cl < 2 ^ 64 ∧
+      headerOf c r = encHeader nf u cl ∧ encRecord c r = encHeader nf u cl ++ S := by
+  cases r with
+  | none => exact ⟨true, 0, _, [], by decide, hf, rfl, (List.append_nil _).symm⟩
+  | some r => exact ⟨false, r.length, _, stored c r, hf.1, hf.2, rfl, rfl⟩
+
+theorem header_alter_detected_partial (c : Compression) (r : GoBytes) (pre rest : Bytes)
+    (hf : FitsRec c r) (i : Nat) (x : UInt8) (hfp : FramePreserving (headerOf c r) i x) :
+    (∃ e, readNextS c ((encRecord c r).set i x ++ rest) = .error e) ∧
+    (∃ e, readAt c (pre ++ (encRecord c r).set i x ++ rest) pre.length = .error e) := by
+  obtain ⟨nf, u, cl, S, hu, hcl, hH, hR⟩ := encRecord_header c r hf
+  rw [hH] at hfp
+  rw [hR]
+  have hi : i < (encHeader nf u cl).length := hfp.1
+  have hset : (encHeader nf u cl ++ S).set i x = (encHeader nf u cl).set i x ++ S :=
+    List.set_append_left _ _ hi
+  have hlen : ((encHeader nf u cl).set i x).length ≤ recordHeaderMax := by
+    rw [List.length_set]; exact encHeader_length_le nf u cl hu hcl
+  rw [hset]
+  constructor
+  · apply readNextS_of_header_error
+    rw [List.append_assoc]
+    obtain ⟨t, ht⟩ := fileWin_bytes ((encHeader nf u cl).set i x) (S ++ rest) hlen
+    exact readHeader_altered _ nf u cl t i x hfp ht
+  · have hl : (pre ++ ((encHeader nf u cl).set i x ++ S) ++ rest).length =
+        pre.length + (encHeader nf u cl).length + S.length + rest.length := by
+      simp only [List.length_append, List.length_set]; omega
+    unfold readAt
+    rw [if_neg (by omega), if_neg (by omega)]
+    have hd : (pre ++ ((encHeader nf u cl).set i x ++ S) ++ rest).drop pre.length =
+        (encHeader nf u cl).set i x ++ (S ++ rest) := by
+      rw [List.append_assoc, List.drop_left, List.append_assoc]
+    simp only [hd]
+    obtain ⟨t, ht⟩ := mmapWin_bytes ((encHeader nf u cl).set i x) (S ++ rest) hlen
+    obtain ⟨e, he⟩ := readHeader_altered _ nf u cl t i x hfp ht
+    rw [he]
+    exact ⟨e, rfl⟩
 
 end SST.Proofs
